@@ -2,7 +2,7 @@
   C10 at whole-document level: the block-quote rule on related states (`blockquote_sim`).
 -/
 import MdIt.Lemmas.C10DocCore
-namespace MdIt.Block
+namespace MdIt.Block.LE
 open MdIt.Lines (LineOffset)
 variable {ρ : Nat → Nat → Prop} {G : Geo}
 
@@ -250,4 +250,4 @@ theorem blockquote_sim (C : Ctx ρ G) {tok₁ tok₂ : Tok} (TK : TokSim ρ G to
   exact SRel.upd X ⟨rfl, rfl⟩ ⟨rfl, rfl⟩ S'.blkIndent rfl S'.lineMax S''.tight S''.listIndent rfl S'.nodeKind S''.refs
     (S'.children.push (NRel.mk hk hr S''.children))
 
-end MdIt.Block
+end MdIt.Block.LE
